@@ -424,10 +424,14 @@ class POP3CommandHandler:
         msg_bytes = msg_as_bytes(msg)
         size = len(msg_bytes)
         msg_bytes = dot_stuff(msg_bytes)
+
+        # The terminating "." goes on a line of its own. If the message
+        # already ends with a CRLF adding another one would send the client
+        # an empty line (two octets) that is not part of the message.
+        #
+        terminator = b".\r\n" if msg_bytes.endswith(b"\r\n") else b"\r\n.\r\n"
         await self.client.push(
-            f"+OK {size} octets\r\n".encode("latin-1")
-            + msg_bytes
-            + b"\r\n.\r\n"
+            f"+OK {size} octets\r\n".encode("latin-1") + msg_bytes + terminator
         )
         return True
 
@@ -541,7 +545,8 @@ class POP3CommandHandler:
         truncated_body = b"\r\n".join(body_lines[:num_lines])
         result = headers + b"\r\n" + truncated_body
         result = dot_stuff(result)
-        await self.client.push(b"+OK\r\n" + result + b"\r\n.\r\n")
+        terminator = b".\r\n" if result.endswith(b"\r\n") else b"\r\n.\r\n"
+        await self.client.push(b"+OK\r\n" + result + terminator)
         return True
 
     ##################################################################
